@@ -235,7 +235,8 @@ def check_C05(rep, tier, seed):
     indirect = k3_select(res, ["calls", "clog"])
     report_k3(rep, "C05", res, [], indirect, ["C05"])
     _, d4, i4 = k4_part(rep, tier, seed, ["calls", "seen"])
-    report_k4(rep, "C05", [], i4, "closure calls / element-to-worker map")
+    report_k4(rep, "C05", [], [x for x in i4 if x[0] == "calls"], "closure call multiset differs from the sequential chain's",
+              lambda kind, m: kind == "calls")
 
 
 def check_C09(rep, tier, seed):
@@ -263,7 +264,7 @@ def check_C08(rep, tier, seed):
     res = k3_part(rep, tier, seed)
     report_k3(rep, "C08", res, [], [], ["C08"])
     r4, d4, i4 = k4_part(rep, tier, seed, ["spawned"])
-    report_k4(rep, "C08", [], i4, "number of workers spawned")
+    report_k4(rep, "C08", [], i4, "more than n workers spawned", c08_failing)
     r1, mism = k1_part(rep, tier, seed)
     if mism:
         corr_failure(rep, "K1", mism, [], str)
@@ -308,7 +309,7 @@ def more_C11(rep, tier, seed):
     r4, d4, i4 = k4_part(rep, tier, seed, ["chunks", "seen"])
     # direct oracle on the replays: with Exact(c) every pull of every worker is c elements
     # (fewer only for the pull that reaches the end): consecutive positions per worker in blocks of c
-    report_k4(rep, "C11", [], i4, "chunk sizes handed to workers / pulls")
+    report_k4(rep, "C11", [], i4, "Exact chunk size not kept", c11_failing)
 
 
 def more_C15(rep, tier, seed):
@@ -372,15 +373,70 @@ def k4_part(rep, tier, seed, kinds, terms=None):
     return res, direct, indirect
 
 
-def report_k4(rep, prop, direct, indirect, what_indirect):
+def report_k4(rep, prop, direct, indirect, what_indirect, is_failing=lambda kind, m: False):
+    """direct: the observable value differs from the specification (a failing input).
+    indirect: the run left the model's behaviour; it is a failing input only if [is_failing]
+    says the property's own oracle fails on it, otherwise the correspondence is reported broken."""
     if direct:
         for kind, m in direct[:3]:
             rep.violation("under a chosen schedule (%s) the %s differs from the sequential specification" % (m.get("style"), kind),
                           {"failing_input_found": True, "correspondence": "K4", "input": m})
-    elif indirect:
-        for kind, m in indirect[:2]:
-            rep.violation("%s: %s differs from the model under schedule style %s" % (what_indirect, kind, m.get("style")),
+        return
+    failing = [(k, m) for (k, m) in indirect if is_failing(k, m)]
+    if failing:
+        for kind, m in failing[:2]:
+            rep.violation("%s: %s under schedule style %s" % (what_indirect, kind, m.get("style")),
                           {"failing_input_found": True, "correspondence": "K4/" + kind, "input": m})
+    elif indirect:
+        kind, m = indirect[0]
+        rep.violation("correspondence K4/%s no longer checks (%d cases, e.g. style %s) but no replay fails the property's oracle"
+                      % (kind, len(indirect), m.get("style")),
+                      {"failing_input_found": False, "theorem_or_correspondence": "K4/" + kind,
+                       "mismatches": [mm for _, mm in indirect[:5]]})
+
+
+def _case_fields(m):
+    import k3
+    return k3.fields(m["case"])
+
+
+def c11_failing(kind, m):
+    """Exact(c): every worker must be handed c (clamped to the length); pulls are blocks of c"""
+    f = _case_fields(m)
+    ops = f["ops"].split(";")
+    cs = ops[-2] if ops[-1].startswith("N:") else ops[1]
+    if not cs.startswith("C:") or cs == "C:0":
+        return False
+    c = int(cs[2:])
+    n = 0 if f["in"] == "-" else len(f["in"].split(","))
+    want = min(c, max(n, 1))
+    if kind == "chunks":
+        return any(int(x) != want for x in m["impl"].split(",") if x not in ("", "-"))
+    if kind == "seen":
+        import json as _j
+        for seen in _j.loads(m["impl"]):
+            # consecutive runs of positions must be whole blocks of `want` (or reach the end)
+            i = 0
+            while i < len(seen):
+                j = i
+                while j + 1 < len(seen) and seen[j + 1] == seen[j] + 1:
+                    j += 1
+                ln = j - i + 1
+                if ln % want != 0 and seen[j] != n - 1 and f["term"].split(":")[0] not in ("find", "findix", "first", "firstix", "any", "all"):
+                    return True
+                i = j + 1
+        return False
+    return False
+
+
+def c08_failing(kind, m):
+    f = _case_fields(m)
+    ops = f["ops"].split(";")
+    nt = int((ops[-1] if ops[-1].startswith("N:") else ops[0])[2:])
+    try:
+        return nt >= 1 and int(m["impl"]) > nt
+    except ValueError:
+        return False
 
 
 def k6_part(rep, tier, seed):
